@@ -178,7 +178,7 @@ def forced_outcomes(case):
 
 def classify(e) -> str:
     """exception -> small enum; never looks at messages (exception classes and chaining only)"""
-    from layered_config_tree import ConfigurationError, DuplicatedConfigurationError
+    from layered_config_tree import ConfigurationError, ConfigurationKeyError, DuplicatedConfigurationError
     from vivarium.framework.components.manager import ComponentConfigError
     from vivarium.framework.lifecycle import ConstraintError, InvalidTransitionError
     ctx = e.__context__
@@ -191,6 +191,8 @@ def classify(e) -> str:
             return "dupname"           # OrderedComponentSet.add
     if isinstance(e, DuplicatedConfigurationError):
         return "dupvalue"
+    if isinstance(e, ConfigurationKeyError):
+        return "nolayer"
     if isinstance(e, ConstraintError):
         return "constraint"
     if isinstance(e, InvalidTransitionError):
@@ -362,145 +364,267 @@ def ctor_forest(case):
     return case["forest"][:case["n_spec"] + case["batches"][0]]
 
 
-def _run_single(case):
-    impl.load()
-    import yaml
-    from layered_config_tree import LayeredConfigTree
-    from vivarium.framework.engine import SimulationContext
+LAYERS = ["base", "user_configs", "component_configs", "model_override", "override"]   # configuration.py 81-99, lowest first
 
-    from .. import c20_probes as cp
 
-    probes = case["probes"]
-    flat_nodes = preorder(case["forest"])
-    deleter = flat_nodes[-1]["n"] if (case.get("delete") and flat_nodes and not flat_nodes[-1].get("lib")) else None
-    cp.reset(specs=_specs(case["forest"]), probes=probes, attempts=case["attempts"], read=_read, write=_write, delete_fn=_delete,
-             delete=case.get("delete"), deleter=deleter,
-             opt_manager=case["plugins"].get("opt") or {})
-    LOG = cp.STATE["log"]
-    obs = {"stages": [], "pre": [], "setup": None, "values": None, "post": [], "late_add": None, "setup_twice": None}
-    forest = case["forest"]
-    n_spec = case["n_spec"]
-    plug = plugin_dict(case["plugins"])
-    # ---- what goes where
-    block = None
-    if n_spec:
-        block = nest([[".".join(PROBE_PKG), [cp.spec_string(t) for t in forest[:n_spec]]]])
-    ms = {}
-    if case["ms"]:
-        ms["configuration"] = nest(case["ms"])
-    if block is not None and case["spec_via"] == "ms":
-        ms["components"] = block
-    if plug and case["plugins"].get("via") == "ms":
-        ms["plugins"] = plug
-    tmp = scratch()
+def _write_layer(cfg, path, val, layer, source) -> str:
+    """`configuration.update({...}, layer=…, source=…)` before setup"""
     try:
-        kind = case["ms_kind"]
-        if kind is None:
-            ms_arg = None
-        elif kind == "dict":
-            ms_arg = ms
-        elif kind == "lct":
-            ms_arg = LayeredConfigTree(ms)
-        else:
-            path = os.path.join(tmp, "model_spec.yaml")
-            with open(path, "w") as f:
-                yaml.safe_dump(ms, f)
-            import pathlib
-            ms_arg = path if kind == "yaml_str" else pathlib.Path(path)
-        ov = None if case["ov_kind"] is None else (LayeredConfigTree(nest(case["ov"])) if case["ov_kind"] == "lct" else nest(case["ov"]))
-        if case["spec_via"] == "cdict":
-            comps = block
-        elif case["spec_via"] == "clct":
-            comps = LayeredConfigTree(block)
-        else:
-            comps = [cp.build(t) for t in forest[n_spec:n_spec + case["batches"][0]]]
-            if case.get("ctor_holes"):
-                comps = cp.with_holes(comps, case["ctor_holes"])
-            if not comps and case.get("no_list"):
-                comps = None
-        plug_arg = plug if (plug and case["plugins"].get("via") != "ms") else None
-        if plug_arg is not None and case["plugins"].get("arg_kind") == "lct":
-            plug_arg = LayeredConfigTree(plug_arg)
-        SimulationContext._clear_context_cache()
-        sim = None
-        with _Home(case.get("home")):
+        kw = {}
+        if layer is not None:
+            kw["layer"] = layer
+        if source is not None:
+            kw["source"] = source
+        cfg.update(nest([[path, val]]), **kw)
+        return "ok"
+    except Exception as e:  # noqa: BLE001
+        return classify(e)
+
+
+class Run:
+    """one simulation, driven step by step (so that a second one can be alive and be driven in between)"""
+
+    def __init__(self, case, reuse=None, reuse_what=None):
+        impl.load()
+        from .. import c20_probes as cp
+        self.cp, self.case = cp, case
+        flat_nodes = preorder(case["forest"])
+        deleter = flat_nodes[-1]["n"] if (case.get("delete") and flat_nodes and not flat_nodes[-1].get("lib")) else None
+        self.st = cp.reset(specs=_specs(case["forest"]), probes=case["probes"], attempts=case["attempts"], read=_read, write=_write,
+                           delete_fn=_delete, delete=case.get("delete"), deleter=deleter, opt_manager=case["plugins"].get("opt") or {})
+        self.prev = reuse
+        self.reuse_what = reuse_what or ""
+        if reuse is not None and "objects" in self.reuse_what:
+            self.st["memo"] = reuse.st["memo"]            # the SAME component objects as the earlier simulation
+        self.obs = {"stages": [], "pre": [], "setup": None, "values": None, "post": [], "late_add": None, "setup_twice": None,
+                    "mutated": []}
+        self.sim = None
+        self.stage_args = []
+        self.ok = True
+
+    # ---- constructor
+    def ctor(self):
+        import pathlib
+
+        import yaml
+        from layered_config_tree import LayeredConfigTree
+        from vivarium.framework.engine import SimulationContext
+        cp, case = self.cp, self.case
+        cp.use(self.st)
+        forest, n_spec = case["forest"], case["n_spec"]
+        plug = plugin_dict(case["plugins"])
+        block = None
+        if n_spec:
+            block = nest([[".".join(PROBE_PKG), [cp.spec_string(t) for t in forest[:n_spec]]]])
+        ms = {}
+        if case["ms"]:
+            ms["configuration"] = nest(case["ms"])
+        if block is not None and case["spec_via"] == "ms":
+            ms["components"] = block
+        if plug and case["plugins"].get("via") == "ms":
+            ms["plugins"] = plug
+        path = os.path.join(scratch(), "model_spec.yaml")
+        reuse_args = self.prev is not None and "args" in self.reuse_what
+        try:
+            kind = case["ms_kind"]
+            if kind is None:
+                ms_arg = None
+            elif kind in ("dict", "lct"):
+                if reuse_args and self.prev.args.get("ms") is not None:
+                    ms_arg = self.prev.args["ms"]             # the SAME argument object as the earlier simulation
+                else:
+                    ms_arg = ms if kind == "dict" else LayeredConfigTree(ms)
+            else:
+                with open(path, "w") as f:                    # always the same path, other content: nothing may be cached by path
+                    yaml.safe_dump(ms, f)
+                ms_arg = path if kind == "yaml_str" else pathlib.Path(path)
+            if case["ov_kind"] is None:
+                ov = None
+            elif reuse_args and self.prev.args.get("ov") is not None:
+                ov = self.prev.args["ov"]
+            else:
+                ov = LayeredConfigTree(nest(case["ov"])) if case["ov_kind"] == "lct" else nest(case["ov"])
+            self.args = {"ms": ms_arg if kind in ("dict", "lct") else None, "ov": ov, "ms_kind": kind, "ms_want": ms}
+            if case["spec_via"] == "cdict":
+                comps = block
+            elif case["spec_via"] == "clct":
+                comps = LayeredConfigTree(block)
+            else:
+                comps = [cp.build(t) for t in forest[n_spec:n_spec + case["batches"][0]]]
+                if case.get("ctor_holes"):
+                    comps = cp.with_holes(comps, case["ctor_holes"])
+                if not comps and case.get("no_list"):
+                    comps = None
+            self.stage_args.append(comps)
+            plug_arg = plug if (plug and case["plugins"].get("via") != "ms") else None
+            if plug_arg is not None and case["plugins"].get("arg_kind") == "lct":
+                plug_arg = LayeredConfigTree(plug_arg)
+            SimulationContext._clear_context_cache()
+            with _Home(case.get("home")):
+                try:
+                    self.sim = SimulationContext(model_specification=ms_arg, components=comps, configuration=ov,
+                                                 plugin_configuration=plug_arg, logging_verbosity=0)
+                    out = "ok"
+                except Exception as e:  # noqa: BLE001
+                    out = classify(e)
+        finally:
+            if os.path.exists(path):
+                os.unlink(path)
+        sim = self.sim
+        if sim is not None:
+            cp.attach(sim.configuration, self.st)
+        reg = [c.name for c in sim._component_manager._components] if sim is not None else None
+        self.obs["stages"].append({"op": "ctor", "outcome": out, "registered": reg})
+        self.ok = out == "ok"
+        return self.ok
+
+    # ---- add_components batches
+    def adds(self):
+        cp, case, sim = self.cp, self.case, self.sim
+        if not self.ok:
+            return False
+        cp.use(self.st)
+        forest = case["forest"]
+        pos = case["n_spec"] + case["batches"][0]
+        for k, how in zip(case["batches"][1:], case["adds"]):
+            objs = [cp.build(t) for t in forest[pos:pos + k]]
+            pos += k
+            if how.get("group") and len(objs) >= 2:          # nested list / tuple inside the supplied sequence
+                objs = objs[:-2] + [[objs[-2], (objs[-1],)]]
+            if how.get("holes"):
+                objs = cp.with_holes(objs, how["holes"])
+            arg = tuple(objs) if how.get("container") == "tuple" else objs
+            j = how.get("same_list_as")
+            if j is not None and j < len(self.stage_args) and isinstance(self.stage_args[j], (list, tuple)):
+                arg = self.stage_args[j]                      # an exact repeat: the very same sequence object again
+            self.stage_args.append(arg)
             try:
-                sim = SimulationContext(model_specification=ms_arg, components=comps, configuration=ov,
-                                        plugin_configuration=plug_arg, logging_verbosity=0)
+                sim.add_components(arg)
                 out = "ok"
             except Exception as e:  # noqa: BLE001
                 out = classify(e)
-    finally:
-        if os.path.exists(os.path.join(tmp, "model_spec.yaml")):
-            os.unlink(os.path.join(tmp, "model_spec.yaml"))
-    reg = [c.name for c in sim._component_manager._components] if sim is not None else None
-    obs["stages"].append({"op": "ctor", "outcome": out, "registered": reg})
-    if out != "ok":
-        return obs
-    pos = n_spec + case["batches"][0]
-    for k, how in zip(case["batches"][1:], case["adds"]):
-        objs = [cp.build(t) for t in forest[pos:pos + k]]
-        pos += k
-        if how.get("group") and len(objs) >= 2:          # nested list / tuple inside the supplied sequence
-            objs = objs[:-2] + [[objs[-2], (objs[-1],)]]
-        if how.get("holes"):
-            objs = cp.with_holes(objs, how["holes"])
-        arg = tuple(objs) if how.get("container") == "tuple" else objs
-        try:
-            sim.add_components(arg)
-            out = "ok"
-        except Exception as e:  # noqa: BLE001
-            out = classify(e)
-        obs["stages"].append({"op": "add", "outcome": out, "registered": [c.name for c in sim._component_manager._components] if out == "ok" else None})
-        if out != "ok":
-            return obs
-    obs["mgrs_live"] = [m.name for m in sim._component_manager._managers]
-    for p, v in case["pre"]:
-        obs["pre"].append(_write(sim.configuration, p, v, "update"))
-    for m in sim._component_manager._managers:            # observe manager setup: wrap the bound `setup`
-        if isinstance(m, cp.ProbeManager):
-            continue                                      # logs (and writes) by itself
-        def w(builder, _orig=m.setup, _n=m.name):
-            LOG.append(["mgr", _n, [_read(builder.configuration, p) for p in probes], []])
-            return _orig(builder)
-        m.setup = w
-    try:
-        sim.setup()
-        out = "ok"
-    except Exception as e:  # noqa: BLE001
-        out = classify(e)
-    deleted = cp.STATE.get("deleted")
-    obs["setup"] = {"outcome": out, "log": [["comp" if k == "comp" else "mgr", n] for k, n, _, _ in LOG],
-                    "seen": [[n, s] for _, n, s, _ in LOG], "tried": [t for _, _, _, ts in LOG for t in ts],
-                    "deleted": deleted[0] if deleted else None}
-    if out != "ok":
-        return obs
-    obs["values"] = [[p, _read(sim.configuration, p)] for p in probes]
-    handle = sim.configuration
-    if case.get("post_handle") == "stored" and cp.STATE["handles"]:
-        handle = cp.STATE["handles"][0]                   # the object a component kept from its setup
-    for p, v, how in case["post"]:
-        obs["post"].append(_write(handle, p, v, how))
-    if case["late_add"]:
-        n0 = len(LOG)
-        cp.STATE["specs"]["late"] = {"id": "late", "n": "zz_late", "d": [], "c": []}
-        try:
-            sim.add_components([cp.Probe("late")])
-            out = "ok"
-        except Exception as e:  # noqa: BLE001
-            out = classify(e)
-        obs["late_add"] = {"outcome": out, "setup_calls": len(LOG) - n0,
-                           "registered": "zz_late" in [c.name for c in sim._component_manager._components]}
-    if case["setup_twice"]:
-        n0 = len(LOG)
+            self.obs["stages"].append({"op": "add", "outcome": out,
+                                       "registered": [c.name for c in sim._component_manager._components] if out == "ok" else None})
+            if out != "ok":
+                self.ok = False
+                return False
+        self.obs["mgrs_live"] = [m.name for m in sim._component_manager._managers]
+        return True
+
+    # ---- reads and writes before setup (any layer, with source strings, exact repeats)
+    def pre(self):
+        if not self.ok:
+            return
+        for op in self.case["pre"]:
+            if op[0] == "r":
+                self.obs["pre"].append([[p, _read(self.sim.configuration, p)] for p in self.case["probes"]])
+            else:
+                _, p, v, layer, source = op
+                self.obs["pre"].append(_write_layer(self.sim.configuration, p, v, layer, source))
+
+    # ---- setup
+    def setup(self):
+        cp, case, sim = self.cp, self.case, self.sim
+        if not self.ok:
+            return False
+        LOG = self.st["log"]
+        probes = case["probes"]
+        for m in sim._component_manager._managers:            # observe manager setup: wrap the bound `setup`
+            if isinstance(m, cp.ProbeManager):
+                continue                                      # logs (and writes) by itself
+            def w(builder, _orig=m.setup, _n=m.name):
+                LOG.append(["mgr", _n, [_read(builder.configuration, p) for p in probes], []])
+                return _orig(builder)
+            m.setup = w
         try:
             sim.setup()
             out = "ok"
         except Exception as e:  # noqa: BLE001
             out = classify(e)
-        obs["setup_twice"] = {"outcome": out, "setup_calls": len(LOG) - n0}
-    obs["values_end"] = [[p, _read(sim.configuration, p)] for p in probes]
-    return obs
+        deleted = self.st.get("deleted")
+        self.obs["setup"] = {"outcome": out, "log": [["comp" if k == "comp" else "mgr", n] for k, n, _, _ in LOG],
+                             "seen": [[n, s] for _, n, s, _ in LOG], "tried": [t for _, _, _, ts in LOG for t in ts],
+                             "deleted": deleted[0] if deleted else None}
+        self.ok = out == "ok"
+        return self.ok
+
+    # ---- afterwards
+    def post(self):
+        cp, case, sim, obs = self.cp, self.case, self.sim, self.obs
+        self.check_mutation()
+        if not self.ok:
+            return
+        LOG = self.st["log"]
+        probes = case["probes"]
+        obs["values"] = [[p, _read(sim.configuration, p)] for p in probes]
+        handle = sim.configuration
+        if case.get("post_handle") == "stored" and self.st["handles"]:
+            handle = self.st["handles"][0]                    # the object a component kept from its setup
+        for p, v, how in case["post"]:
+            obs["post"].append(_write(handle, p, v, how))
+        if case["late_add"]:
+            n0 = len(LOG)
+            self.st["specs"]["late"] = {"id": "late", "n": "zz_late", "d": [], "c": []}
+            cp.use(self.st)
+            try:
+                sim.add_components([cp.Probe("late")])
+                out = "ok"
+            except Exception as e:  # noqa: BLE001
+                out = classify(e)
+            obs["late_add"] = {"outcome": out, "setup_calls": len(LOG) - n0,
+                               "registered": "zz_late" in [c.name for c in sim._component_manager._components]}
+        if case["setup_twice"]:
+            n0 = len(LOG)
+            try:
+                sim.setup()
+                out = "ok"
+            except Exception as e:  # noqa: BLE001
+                out = classify(e)
+            obs["setup_twice"] = {"outcome": out, "setup_calls": len(LOG) - n0}
+        obs["values_end"] = [[p, _read(sim.configuration, p)] for p in probes]
+
+    def check_mutation(self):
+        """did the framework write into an object that belongs to the user: a defaults dict a component returns every time,
+        a class attribute CONFIGURATION_DEFAULTS, the dicts passed as arguments"""
+        cp, case = self.cp, self.case
+        mut = []
+        for name, obj, pristine in self.st["dicts"]:
+            if obj != pristine:
+                mut.append("defaults-of:" + name)
+        for t in preorder(case["forest"]):
+            if not t.get("lib") and t.get("defs") == "class_attr" and cp.class_of(t).CONFIGURATION_DEFAULTS != nest(t["d"]):
+                mut.append("class-attribute-of:" + t["n"])
+        a = getattr(self, "args", None)
+        if a:
+            if isinstance(a["ov"], dict) and a["ov"] != nest(case["ov"]):
+                mut.append("argument:configuration")
+            if isinstance(a["ms"], dict) and a["ms"] != a["ms_want"]:
+                mut.append("argument:model_specification")
+        self.obs["mutated"] = sorted(set(mut))
+
+
+def _run_single(case, prev=None, reuse_what=None):
+    """the judged simulation (or an earlier one), optionally with a second simulation alive at the same time whose steps are
+    interleaved with its own; returns the Run"""
+    other_case = case.get("other")
+    r = Run(case, reuse=prev, reuse_what=reuse_what)
+    if not other_case:
+        r.ctor(); r.adds(); r.pre(); r.setup(); r.post()     # noqa: E702
+        return r
+    o = Run(fill(other_case))
+    steps = {0: [], 1: [], 2: [], 3: [], 4: []}
+    at = sorted(case.get("other_at") or [0, 1, 3])
+    for fn, slot in zip((o.ctor, o.adds, lambda: (o.pre(), o.setup(), o.post())), at):
+        steps[slot].append(fn)
+
+    def run(slot):
+        for fn in steps[slot]:
+            try:
+                fn()
+            except Exception:  # noqa: BLE001
+                pass
+    run(0); r.ctor(); run(1); r.adds(); run(2); r.pre(); r.setup(); run(3); r.post(); run(4)     # noqa: E702
+    return r
 
 
 # every judged simulation is preceded, inside run_impl (so also in a replay), by this one: same names, same probe classes,
@@ -523,12 +647,13 @@ def _run(case):
         _run_single(_warmup_case())
     except Exception:  # noqa: BLE001
         pass
+    prev = None
     for b in case.get("before", []):                     # earlier simulations in the same process really run
         try:
-            _run_single(b)
+            prev = _run_single(b)
         except Exception:  # noqa: BLE001
-            pass
-    return _run_single(case)
+            prev = None
+    return _run_single(case, prev=prev if case.get("reuse") else None, reuse_what=case.get("reuse")).obs
 
 
 def _enc_defs(pairs, tokens=False):
@@ -557,6 +682,9 @@ def fill(case):
     c.setdefault("post_handle", "sim")
     c.setdefault("delete", None)
     c.setdefault("before", [])
+    c.setdefault("reuse", None)
+    c.setdefault("other", None)
+    c["pre"] = [op if op[0] in ("w", "r") and len(op) in (1, 5) else ["w", op[0], op[1], None, None] for op in c["pre"]]
     return c
 
 
@@ -585,7 +713,7 @@ class C20(Prop):
 
     # ------------------------------------------------------------------ generation
     def _tree(self, rng, d, names, ids, budget):
-        n = {"id": ids[0], "n": names.pop(), "d": [], "c": [], "sub": rng.choice(SUBS), "defs": rng.choice(["property", "class_attr"]),
+        n = {"id": ids[0], "n": names.pop(), "d": [], "c": [], "sub": rng.choice(SUBS), "defs": rng.choice(["property", "property_same", "class_attr"]),
              "proto": rng.choice(PROTOS) if rng.random() < self._proto_rate else "plain"}
         ids[0] += 1
         budget[0] -= 1
@@ -711,6 +839,14 @@ class C20(Prop):
                 plugins["opt"]["d"] = [list(rng.choice(t["d"]))]
         elif flat and fault < 0.58:                              # outside the signature: sub_components is a generator
             rng.choice(flat)["sub"] = "gen"
+        if like is None and len(flat) >= 2 and rng.random() < 0.08:   # two parents return the very same list object
+            a = rng.choice(flat)
+            cands = [t for t in flat if t is not a and not self._inside(a, t) and not self._inside(t, a) and not t["c"]]
+            if cands and a.get("sub") != "fresh" and not any(x.get("lib") for x in preorder(a["c"])):
+                b = rng.choice(cands)
+                b["c"] = a["c"]                                  # (same node dicts: same ids, same objects)
+                b["share"] = a["id"]
+                b["sub"] = rng.choice(["list", "tuple", "copy"])
         for t in flat:
             t["d"] = canon_pairs(t["d"]) if nestable(t["d"]) else t["d"][:1]
         if like is None:
@@ -743,6 +879,20 @@ class C20(Prop):
             tgt = rng.choice([ms, ov] + ([home] if home is not None else []))
             if all(x != q for x, _ in tgt) and nestable(tgt + [[q, 0]]) and not any(under(q, m) for m in MGR_PATHS):
                 tgt.append([q, rng.randint(20, 99)])
+        if rng.random() < 0.1:                                   # one key carried as 1 / 1.0 / True / "1" / [1] / None by the different writers
+            reps = [1, 1.0, True, "1", [1], None, 0, False, "", "1.0"]
+            rng.shuffle(reps)
+            plain = [t for t in flat if not t.get("lib")]
+            key = rng.choice([p for p in defaulted if p not in MGR_PATHS and not p.startswith("pm.")] or [rng.choice(pool)])
+            for t in plain:
+                t["d"] = [[p, reps[0]] if p == key else [p, v] for p, v in t["d"]]
+            for lst, rep_ in ((ms, reps[1]), (ov, reps[2])):
+                if rng.random() < 0.7 and nestable(lst + [[key, 0]]):
+                    lst[:] = [x for x in lst if x[0] != key] + [[key, rep_]]
+            if rng.random() < 0.5:
+                home = [x for x in (home or []) if x[0] != key] + [[key, reps[3]]]
+                home = home if nestable(home) else [[key, reps[3]]]
+            tag = (tag + "+" if tag else "") + "hetero"
         ms, ov = canon_pairs(ms), canon_pairs(ov)
         home = canon_pairs(home) if home is not None else None
         # ---- routes for the components
@@ -796,11 +946,33 @@ class C20(Prop):
             if names_flat:
                 attempts.append([rng.choice(names_flat), rng.choice(cand + ["fresh.k0", "s0.fresh"]), rng.randint(100, 199),
                                  rng.choice(HOWS)])
-        pre = [[rng.choice(cand + ["early.k0"]), rng.randint(200, 299)]] if rng.random() < 0.15 else []
-        pre = [x for x in pre if x[0] not in MGR_PATHS]
+        pre = []
+        if rng.random() < 0.3:                                   # a history before setup: writes at any layer (with source strings),
+            keys = [p for p in cand + ["early.k0", "early.k1"] if p not in MGR_PATHS and not any(under(m.split(".")[0], p) for m in MGR_PATHS)]
+            keys = rng.sample(keys, min(len(keys), 2)) if keys else ["early.k0"]     # reads in between, exact repeats, both layer orders
+            for _ in range(rng.randint(1, 6)):
+                r = rng.random()
+                writes = [op for op in pre if op[0] == "w"]
+                if r < 0.25:
+                    pre.append(["r"])
+                elif r < 0.5 and writes:                         # repeat an earlier write: verbatim / same key+layer other value / other layer
+                    _, p, v, layer, src = rng.choice(writes)
+                    how = rng.choice(["verbatim", "value", "layer", "layer"])
+                    if how == "value":
+                        v = self._value(rng, 0.2, 0.3, 200, 299)
+                    elif how == "layer":
+                        layer = rng.choice([l for l in LAYERS if l != (layer or LAYERS[-1])])
+                    pre.append(["w", p, copy.deepcopy(v), layer, src])
+                else:
+                    layer = rng.choice(LAYERS + [None, None, "override", "base"])
+                    pre.append(["w", rng.choice(keys), self._value(rng, 0.15, 0.25, 200, 299), layer,
+                                rng.choice([None, "a_user", "some/file.yaml", "c0"])])
+            if rng.random() < 0.1 and ov:
+                pre.append(["w", ov[0][0], 1, "no_such_layer", None])      # unknown layer on a key that exists
+            pre.append(["r"])
         post = [[rng.choice(cand + ["late.k0"]), rng.randint(300, 399), rng.choice(HOWS)] for _ in range(rng.choice([0, 1, 1, 2]))]
         used = {p for p, _ in ms} | {p for p, _ in ov} | {p for p, _ in (home or [])} | set(defaulted) | {a[1] for a in attempts} \
-            | {p for p, _ in pre} | {p for p, _, _ in post}
+            | {op[1] for op in pre if op[0] == "w"} | {p for p, _, _ in post}
         probes = sorted(used)
         extra = [p for p in POOL + list(MGR_PATHS) + ["absent.k", "h.k0"] if p not in used]
         rng.shuffle(extra)
@@ -814,6 +986,20 @@ class C20(Prop):
                 "ms": ms, "ms_kind": ms_kind, "ov": ov, "ov_kind": ov_kind, "home": home, "plugins": plugins,
                 "probes": probes, "attempts": attempts, "pre": pre, "post": post, "post_handle": rng.choice(["sim", "stored"]),
                 "late_add": rng.random() < 0.3, "setup_twice": rng.random() < 0.3, "delete": delete, "before": []}
+        if like is None and rng.random() < 0.1 and len(batches) >= 2:   # an earlier batch again: verbatim (the same sequence
+            j = rng.randrange(len(batches))                             # object) or overlapping (some of it + something new)
+            lo = n_spec + sum(batches[:j])
+            again = forest[lo:lo + batches[j]]
+            if j == 0 and spec_via in ("cdict", "clct"):
+                again = []
+            how = rng.choice(["verbatim", "overlap", "overlap"])
+            if how == "overlap" and again:
+                again = rng.sample(again, rng.randint(1, len(again)))
+            case["forest"] = forest + again
+            case["batches"] = batches + [len(again)]
+            case["adds"] = adds + [{"container": adds[j - 1]["container"] if j else "list", "group": False, "holes": [],
+                                    "same_list_as": j if how == "verbatim" and not (j and (adds[j - 1]["group"] or adds[j - 1]["holes"])) and not (j == 0 and ctor_holes) else None}]
+            tag = (tag + "+" if tag else "") + "repeat-batch"
         if tag:
             case["mode"] = tag
         if allow_before and rng.random() < 0.35:
@@ -821,6 +1007,19 @@ class C20(Prop):
                 b = self._gen(rng, allow_before=False, like=case if rng.random() < 0.75 else None)
                 b["delete"] = None if rng.random() < 0.7 else b["delete"]
                 case["before"].append(b)
+        if allow_before and rng.random() < 0.12:                 # the SAME objects (components, argument dicts) in a second simulation
+            b = copy.deepcopy({k: v for k, v in case.items() if k not in ("before", "other")})
+            b["before"], b["delete"], b["other"] = [], None, None
+            what = rng.choice(["objects", "args", "objects+args"])
+            if "args" not in what:                               # other user values, same structure
+                b["ov"] = [[p_, self._value(rng, 0.2, 0.2, 400, 499)] for p_, _ in b["ov"]]
+            case["before"].append(b)
+            case["reuse"] = what
+        if allow_before and rng.random() < 0.15:                 # a second simulation alive at the same time, driven in between
+            o = self._gen(rng, allow_before=False, like=case if rng.random() < 0.6 else None)
+            o["delete"] = None
+            case["other"] = o
+            case["other_at"] = sorted(rng.choice([0, 1, 2, 3, 4]) for _ in range(3))
         return case
 
     @staticmethod
@@ -841,7 +1040,7 @@ class C20(Prop):
             flat = preorder(forest)
             opt = (kw.get("plugins") or {}).get("opt") or {"d": []}
             used = [p for t in flat for p, _ in t["d"]] + [p for p, _ in ms] + [p for p, _ in ov] + [a[1] for a in attempts] \
-                + [p for p, _ in pre] + [p for p, _, _ in post] + [p for p, _ in (kw.get("home") or [])] + [p for p, _ in opt["d"]]
+                + [op[1] if op[0] == "w" and len(op) == 5 else op[0] for op in pre if op != ["r"]] + [p for p, _, _ in post] + [p for p, _ in (kw.get("home") or [])] + [p for p, _ in opt["d"]]
             pr = probes if probes is not None else \
                 sorted(p for p in set(used) if not any(under(p, q) and p != q for q in used)) + ["absent.k", "population.population_size"]
             n_spec = kw.get("n_spec", 0)
@@ -1034,6 +1233,37 @@ class C20(Prop):
         ]
         # earlier simulations in the same process: same names, same class (class attribute defaults), same keys, other user
         # values; a rejected one; one that deletes; then the simulation that is judged
+        # lessons 12-13: exact repeats, several objects of one kind alive, heterogeneous histories
+        base2 = [N(0, "a", [("s0.k0", 1), ("s0.k1", 2)], [N(1, "b", [("s1.k0", 3)], [], defs="class_attr")], defs="property_same"), N(2, "c", [("s2.k0", 4)], sub="tuple")]
+        for what in ("objects", "args", "objects+args"):
+            m_ = case(copy.deepcopy(base2), ms=[("s1.k0", 30)], ov=[("s0.k0", 100)], probes=["s0.k0", "s0.k1", "s1.k0", "s2.k0", "absent.k"])
+            b_ = copy.deepcopy(m_)
+            if "args" not in what:
+                b_["ov"] = [["s0.k0", 400]]
+            out.append(dict(m_, before=[b_], reuse=what))
+        m_ = case([N(0, "a", [("s0.k0", 1)], [N(1, "b")]), N(2, "c", [("s0.k1", 2)])], batches=[1, 1], ov=[("s0.k1", 20)], home=[("h.k0", 5)])
+        o_ = case([N(0, "a", [("s0.k0", 7)], [N(1, "b", [("s1.k0", 8)])]), N(3, "d")], batches=[1, 1], ov=[("s0.k0", 70), ("h.k0", 71)], ms=[("s0.k1", 72)], ms_kind="yaml_str")
+        for at in ([0, 1, 2], [1, 1, 2], [0, 2, 3], [1, 2, 4], [0, 0, 0]):
+            out.append(dict(copy.deepcopy(m_), other=copy.deepcopy(o_), other_at=at))
+        W = lambda p_, v, layer=None, src=None: ["w", p_, v, layer, src]   # noqa: E731
+        for pre_ in ([W("q.k", 1, "base", "a"), ["r"], W("q.k", 2, "override", "b"), ["r"], W("q.k", 3, "model_override"), ["r"]],
+                     [W("q.k", 2, "override"), ["r"], W("q.k", 1, "base"), ["r"], W("q.k", 1, "base"), W("q.k", 2, "override", "again"), ["r"]],
+                     [W("s0.k0", 5, "component_configs"), W("s0.k0", 5, "user_configs", "f.yaml"), ["r"], W("s0.k0", 6, "user_configs", "f.yaml"), W("s0.k0", 7), ["r"], W("s0.k0", 7), ["r"]],
+                     [W("s0.k1", None, "model_override"), ["r"], W("s0.k1", 0, "override"), ["r"], W("s0.k1", "0", "override"), W("s0.k1", 1, "no_such_layer"), ["r"]],
+                     [["r"], ["r"], W("early.k0", [1], "base"), W("early.k0", 1.0, "user_configs"), W("early.k0", True, "component_configs"), W("early.k0", "1", "model_override"), ["r"]]):
+            out.append(case([N(0, "a", [("s0.k0", 1)])], ov=[("s0.k1", 9)], pre=pre_, attempts=[("a", "q.k", 5, "update")], post=[("q.k", 6, "update")]))
+        out += [
+            case([N(0, "a"), N(1, "b"), N(0, "a"), N(1, "b")], batches=[0, 2, 2],
+                 adds=[{"container": "list", "group": False, "holes": []}, {"container": "list", "group": False, "holes": [], "same_list_as": 1}]),
+            case([N(0, "a"), N(1, "b"), N(1, "b"), N(2, "c")], batches=[2, 2]),                     # overlapping with the constructor's list
+            case([N(0, "a"), N(1, "b"), N(2, "c"), N(1, "b")], batches=[0, 2, 1, 1]),               # overlapping after an intervening batch
+            case([N(0, "a")], batches=[1, 0, 0], adds=[{"container": "list", "group": False, "holes": []},
+                                                        {"container": "list", "group": False, "holes": [], "same_list_as": 1}]),   # the same EMPTY list twice
+            case([N(0, "a", [], [N(2, "x"), N(3, "y")]), N(1, "b", [], [N(2, "x"), N(3, "y")]) | {"share": 0}]),   # one list object, two parents
+            case([N(0, "a"), N(1, "b") | {"share": 0}, N(2, "c") | {"share": 0, "sub": "tuple"}]),                  # … an empty one: fine
+            case([N(0, "a", [("s0.k0", 1), ("s0.k1", 1.0), ("s0.k2", "1")], defs="property_same"), N(1, "b", [("s1.k0", True)], defs="property_same")],
+                 ms=[("s0.k0", 1.0), ("s0.k1", True), ("s1.k0", 1)], ov=[("s0.k0", "1"), ("s0.k2", [1])], home=[("s0.k0", [1]), ("s1.k0", "True")]),
+        ]
         main = case([N(0, "a", [("s0.k0", 1), ("s0.k1", 2)], [N(1, "b", [("s1.k0", 3)], [], defs="class_attr")], defs="class_attr")],
                     ms=[("s1.k0", 30)], probes=["s0.k0", "s0.k1", "s1.k0", "s2.k0", "fresh.k0", "population.population_size"])
         b1 = case([N(0, "a", [("s0.k0", 1), ("s0.k1", 2)], [N(1, "b", [("s1.k0", 3)], [], defs="class_attr")], defs="class_attr"), N(2, "c", [("s2.k0", 4)])],
@@ -1048,9 +1278,13 @@ class C20(Prop):
 
         def rebatch(f):
             return dict(case, forest=f, n_spec=0, spec_via=None, batches=[len(f)], adds=[], ctor_holes=[])
-        if case["before"]:
+        if case.get("other"):
+            yield dict(case, other=None)
+        if case.get("reuse"):
+            yield dict(case, reuse=None)
+        if case["before"] and not case.get("reuse"):
             yield dict(case, before=[])
-            for j in range(len(case["before"])):
+            for j in range(len(case["before"]) - (1 if case.get("reuse") else 0)):
                 yield dict(case, before=case["before"][:j] + case["before"][j + 1:])
         for i in range(len(forest)):
             yield rebatch(forest[:i] + forest[i + 1:])
@@ -1129,8 +1363,13 @@ class C20(Prop):
                 return plan
             plan.append((f"add {_enc_forest(case['forest'][pos:pos + k])}", "add", st))
             pos += k
-        for (p, v), o in zip(case["pre"], obs["pre"]):
-            plan.append((f"set {p} {tok(v)}", "set", o))
+        for op, o in zip(case["pre"], obs["pre"]):
+            if op[0] == "r":
+                for p, v in o:
+                    plan.append((f"get {p}", "get", v))
+            else:
+                _, p, v, layer, _src = op
+                plan.append((f"set {p} {tok(v)}" if layer is None else f"setl {layer} {p} {tok(v)}", "set", o))
         if obs["setup"] is not None:
             att = ";".join(f"{n}={p}={tok(v)}" for n, p, v, _ in case["attempts"]) or "-"
             plan.append((f"setup {','.join(case['probes']) or '-'} {att}", "setup", obs["setup"]))
@@ -1161,6 +1400,8 @@ class C20(Prop):
     def compare(self, case, obs, replies):
         dis = []
         case = fill(case)
+        if obs.get("mutated"):
+            dis.append(f"the framework wrote into objects that belong to the user: {obs['mutated']}")
         plan = self._plan(case, obs)
         ctor = obs["stages"][0]["outcome"] if obs["stages"] else None
         if len([1 for l, _, _ in plan if l is not None]) != len(replies):
@@ -1262,6 +1503,28 @@ class C20(Prop):
         F["may_reject"] = F["conflict_user"] or F["gen"] or F["forced"]
         return F
 
+    @staticmethod
+    def _history(case):
+        """every write to the configuration the case makes before setup begins, in order:
+        [when (0 = constructor / registration, k = k-th operation before setup), layer, path, value, who]"""
+        h = []
+        for p, v in case["home"] or []:
+            h.append([0, "user_configs", p, v, f"~/vivarium.yaml {v!r}"])
+        for p, v in case["ms"]:
+            h.append([0, "model_override", p, v, f"model specification {v!r}"])
+        for p, v in case["ov"]:
+            h.append([0, "override", p, v, f"override argument {v!r}"])
+        for p, v in (case["plugins"].get("opt") or {"d": []})["d"]:
+            h.append([0, "component_configs", p, v, f"default of the optional manager {v!r}"])
+        for t in preorder(case["forest"]):
+            for p, v in t["d"]:
+                h.append([0, "component_configs", p, v, f"default of {t['n']} {v!r}"])
+        for k, op in enumerate(case["pre"]):
+            if op[0] == "w":
+                _, p, v, layer, src = op
+                h.append([k + 1, layer if layer is not None else LAYERS[-1], p, v, f"update before setup at {layer or 'the outermost layer'} {v!r}"])
+        return h
+
     def oracle(self, case, obs):
         f = []
         case = fill(case)
@@ -1319,39 +1582,59 @@ class C20(Prop):
             f.append({"sig": "config-delete-after-freeze",
                       "msg": f"component {d[0]} ran `del builder.configuration.{gone}` inside setup(): accepted, "
                              f"values afterwards {[x for x in obs['values'] if under(gone, x[0])]}"})
-        # what every probed key must read, during setup and afterwards, derived from the case alone:
-        # override argument > model specification > the one default > ~/vivarium.yaml > nothing
-        ov, ms, home = dict(map(tuple, case["ov"])), dict(map(tuple, case["ms"])), dict(map(tuple, case["home"] or []))
-        defaults = {}
-        for t in flat:
-            for p, v in t["d"]:
-                defaults[p] = v
-        for p, v in (case["plugins"].get("opt") or {"d": []})["d"]:
-            defaults[p] = v
-        touched = {p for p, _ in case["pre"]}
+        # what every probed key must read – before setup (after each prefix of the writes made then), during setup and
+        # afterwards – derived from the HISTORY of writes in the case alone: the highest layer that was written wins
+        # (override argument > model specification > the one default > ~/vivarium.yaml > base), a second write to a layer
+        # that already has the key is refused and changes nothing
+        history = self._history(case)
         idx = {p: i for i, p in enumerate(case["probes"])}
+        SIG = {"override": "user-value-lost", "model_override": "user-value-lost", "component_configs": "default-not-applied",
+               "user_configs": "home-config-value-lost", "base": "base-layer-value-lost", None: "phantom-value"}
+
+        def expect(p, n_pre):
+            """(known?, token, layer, who) after the constructor, the registrations and the first n_pre operations before setup"""
+            best = {}
+            for when, layer, q, v, who in history:
+                if when > n_pre:
+                    continue
+                if strict_conflict(p, q):
+                    return False, None, None, None                # malformed input somewhere around p: no opinion
+                if q == p and layer in LAYERS and layer not in best:   # the first write to a layer stays
+                    best[layer] = (v, who)
+            builtin = any(under(m.split(".")[0], p) for m in list(MGR_PATHS) + ["input_data", "time"])
+            for layer in reversed(LAYERS):
+                if layer == "component_configs" and builtin and layer not in best:
+                    return False, None, None, None                # a built-in manager's default: not the oracle's business
+                if layer in best:
+                    return True, tok(best[layer][0]), layer, best[layer][1]
+            return True, None, None, "nobody"
+
+        def judge(p, got, n_pre, where):
+            known, want, layer, who = expect(p, n_pre)
+            if known and got != want:
+                f.append({"sig": SIG[layer], "msg": f"{p} {where}: supplied by {who}, configuration returns {got} (expected {want})"})
+                return False
+            return True
+        n_pre = len(case["pre"])
+        done = False
+        for k, (op, o) in enumerate(zip(case["pre"], obs["pre"])):      # reads between the writes before setup
+            if op[0] == "r" and not done:
+                for p, got in o:
+                    if not judge(p, got, k, f"read before setup (after {k} operations)"):
+                        done = True
+                        break
         after = dict(map(tuple, obs["values"]))
         for p in case["probes"]:
-            if p in touched or (gone is not None and under(gone, p)) or any(strict_conflict(p, q) for q in list(ov) + list(ms) + list(home) + list(defaults)):
-                continue
-            if p in ov:
-                want, sig, who = tok(ov[p]), "user-value-lost", f"override argument {ov[p]!r}"
-            elif p in ms:
-                want, sig, who = tok(ms[p]), "user-value-lost", f"model specification {ms[p]!r}"
-            elif p in defaults:
-                want, sig, who = tok(defaults[p]), "default-not-applied", f"the only default {defaults[p]!r}"
-            elif any(under(m.split(".")[0], p) for m in list(MGR_PATHS) + ["input_data", "time"]):
-                continue                                           # a built-in manager's default: not the oracle's business
-            elif p in home:
-                want, sig, who = tok(home[p]), "home-config-value-lost", f"~/vivarium.yaml {home[p]!r}"
-            else:
-                want, sig, who = None, "phantom-value", "nobody"
-            if after.get(p) != want:
-                f.append({"sig": sig, "msg": f"{p}: supplied by {who}, configuration returns {after.get(p)} (expected {want})"})
+            if done:
                 break
-            wrong = [(n, s[idx[p]]) for n, s in obs["setup"]["seen"] if s[idx[p]] != want]
+            if gone is not None and under(gone, p):
+                continue
+            if not judge(p, after.get(p), n_pre, "after setup"):
+                break
+            known, want, layer, who = expect(p, n_pre)
+            wrong = [(n, s_[idx[p]]) for n, s_ in obs["setup"]["seen"] if s_[idx[p]] != want] if known else []
             if wrong:
-                f.append({"sig": sig, "msg": f"{p}: supplied by {who} (expected {want}), seen during setup: {wrong[:3]}"})
+                f.append({"sig": SIG[layer], "msg": f"{p}: supplied by {who} (expected {want}), seen during setup: {wrong[:3]}"})
                 break
         # the configuration cannot be modified once setup has begun
         acc = [t for t in obs["setup"]["tried"] if t[2] == "ok"]
@@ -1438,7 +1721,37 @@ class C20(Prop):
             opt = case["plugins"].get("opt")
             if opt and any(n == opt["n"] for n, _, _ in obs["setup"]["tried"]):
                 t.append("write-from-setup:by-a-manager")
-        t += ["write-before-setup:" + o for o in obs["pre"]]
+        for op, o in zip(case["pre"], obs["pre"]):
+            if op[0] == "r":
+                t.append("read-before-setup")
+            else:
+                t.append("write-before-setup:" + o + "@" + str(op[3]))
+                if op[4] is not None:
+                    t.append("write-before-setup:with-source")
+        ws = [op for op in case["pre"] if op[0] == "w"]
+        for i, op in enumerate(ws):
+            for prev in ws[:i]:
+                if prev[1] == op[1]:
+                    same_layer = (prev[3] or LAYERS[-1]) == (op[3] or LAYERS[-1])
+                    t.append("repeat-write:" + ("verbatim" if same_layer and prev[2] == op[2] else "same-layer-other-value" if same_layer else
+                             "higher-layer-later" if LAYERS.index(op[3] or LAYERS[-1]) > LAYERS.index(prev[3] or LAYERS[-1]) else "lower-layer-later"
+                             if (op[3] or LAYERS[-1]) in LAYERS and (prev[3] or LAYERS[-1]) in LAYERS else "unknown-layer"))
+                    break
+        if case.get("reuse"):
+            t.append("reuse-in-second-simulation:" + case["reuse"])
+        if case.get("other"):
+            at = case.get("other_at") or [0, 1, 3]
+            t.append("second-simulation-alive")
+            t.append("second-simulation:constructed-" + ("before" if at[0] == 0 else "after") + "-the-judged-one")
+            t.append("second-simulation:set-up-" + ("before" if at[2] <= 2 else "after") + "-the-judged-one")
+        if case.get("mode"):
+            t += ["mode:" + m for m in case["mode"].split("+")]
+        for a in case["adds"]:
+            if a.get("same_list_as") is not None:
+                t.append("repeat-batch:same-sequence-object")
+        for x in flat:
+            if x.get("share") is not None:
+                t.append("sub_components:list-shared-with-another-parent" + ("" if x["c"] else "(empty)"))
         t += ["write-after-setup:" + o + "@" + case["post_handle"] for o in obs["post"]]
         t += ["write-how:" + a[3] for a in case["attempts"]] + ["write-how-after:" + a[2] for a in case["post"]]
         if obs["late_add"]:
